@@ -1430,3 +1430,34 @@ Proof.
   - apply sequentialize_complete; assumption.
   - intros code M'. apply sequentialize_failure_untouched.
 Qed.
+
+(* ---------------------------------------------------------------- Sequential.is_sequential *)
+
+Lemma nth_error_seq_lt : forall n i, i < n -> nth_error (seq 0 n) i = Some i.
+Proof.
+  intros n i H. rewrite (nth_error_nth' (seq 0 n) 0) by (rewrite seq_length; exact H).
+  rewrite seq_nth by exact H. reflexivity.
+Qed.
+
+Lemma TriS_is_sequential : forall M, distinct_lhs M ->
+  TriS (inc_pos (seq_im M)) (fun x => x) (seq 0 (length M)) -> is_sequential_im (seq_im M) = true.
+Proof.
+  intros M Hd H. unfold is_sequential_im. rewrite seq_im_length, (seq_im_ncols M Hd).
+  change is_sequential_order with 1.
+  apply forallb_forall. intros i Hi. apply in_seq in Hi.
+  apply forallb_forall. intros j Hj. apply in_seq in Hj.
+  apply negb_true_iff.
+  apply (TriS_nth _ _ _ i j i j H); [lia | apply nth_error_seq_lt; lia | apply nth_error_seq_lt; lia].
+Qed.
+
+(* is_sequential is True exactly when the current order of the equations is causal *)
+Lemma is_sequential_iff : forall M, distinct_lhs M ->
+  (model_is_sequential M = true <-> causal_order M (seq 0 (length M))).
+Proof.
+  intros M Hd. unfold model_is_sequential. destruct M as [|eq0 M'] eqn:EM.
+  - simpl. split; [|reflexivity]. intros _ p i H. destruct p; discriminate.
+  - rewrite <- EM in *. assert (Hnil : is_nil M = false) by (rewrite EM; reflexivity). rewrite Hnil.
+    rewrite <- (causal_iff M (seq 0 (length M)) Hd (Permutation_refl _)). split.
+    + apply is_sequential_TriS. exact Hd.
+    + apply TriS_is_sequential. exact Hd.
+Qed.
